@@ -317,6 +317,13 @@ func runCheck(repo, contracts string, args []string, tier string, timeout time.D
 		backendCount[sr.Backend] += sr.Discharged
 		fnNames = append(fnNames, sr.Functions...)
 	}
+	if recs, vs := runBounded(w, prop); len(recs) > 0 {
+		ev.Coverage["bounded_stand_ins"] = recs
+		for _, v := range vs {
+			violations++
+			violationLines = append(violationLines, v)
+		}
+	}
 	sort.Strings(fnNames)
 	ev.Coverage["obligations"] = total
 	ev.Coverage["discharged"] = discharged
